@@ -44,6 +44,10 @@ pub struct IoFaultSpec {
     /// Path relative to the database directory.
     #[serde(default)]
     pub path: String,
+    /// Disk full: from the `nth` call of the statement on, every write / mkdir / file creation
+    /// fails with ENOSPC until the statement returns (class and path are ignored).
+    #[serde(default)]
+    pub sticky: bool,
     pub kind: crate::interpose::FaultKind,
 }
 
